@@ -62,7 +62,9 @@ Overlap(e, f) == /\ e[1] # e[2] /\ f[1] # f[2]
                         flo == MinI(f[1][d], f[2][d]) fhi == MaxI(f[1][d], f[2][d])
                     IN MaxI(elo, flo) < MinI(ehi, fhi)
 SharedOverlap(a, b) == \E e \in Edges(a), f \in Edges(b) : Overlap(e, f)
-SelfOverlap(a) == \E e \in Edges(a), f \in Edges(a) : e # f /\ Overlap(e, f)
+EdgeAt(a, k, i) == <<a[k][i], Nxt(a[k], i)>>
+EdgeIdx(a) == {<<k, i>> : k \in 1..Len(a), i \in 1..K}
+SelfOverlap(a) == \E x \in EdgeIdx(a), y \in EdgeIdx(a) : x # y /\ Overlap(EdgeAt(a, x[1], x[2]), EdgeAt(a, y[1], y[2]))
 \* a vertex lies in the relative interior of an edge (of either operand): snapping / splitting is exercised
 Verts(path) == {path[k][i] : k \in 1..Len(path), i \in 1..K}
 TJunction(a, b) == \E v \in Verts(a) \cup Verts(b), e \in Edges(a) \cup Edges(b) : e[1] # e[2] /\ v # e[1] /\ v # e[2] /\ OnSeg(e[1], e[2], v)
